@@ -462,14 +462,17 @@ class C09(Check):
             for _ in range(k):
                 rid[0] += 1
                 srv.serve(gen_hreq(g, rng, rid[0], kind, dict(before=[], after=[], errh=[])))
-        burst(20)                      # warm-up: caches filled, routes installed
+        import tracemalloc
+        tracemalloc.start()            # before the warm-up, so that replaced cache entries balance out
+        burst(300)                     # warm-up: routes installed, lru caches of urllib (128 entries) saturated
         burst(N)
         gc.collect()
-        a = len(gc.get_objects())
+        a, ma = len(gc.get_objects()), tracemalloc.get_traced_memory()[0]
         burst(N)
         gc.collect()
-        b = len(gc.get_objects())
-        return a, b
+        b, mb = len(gc.get_objects()), tracemalloc.get_traced_memory()[0]
+        tracemalloc.stop()
+        return a, b, ma, mb
 
     def _class_state(self, kind, n, rng):
         """serve one history of every request kind (warm-up), fingerprint the class-level state, serve
@@ -487,6 +490,12 @@ class C09(Check):
         one_pass()
         b = class_state_snapshot()
         return [(k, str(a.get(k))[:200], str(b.get(k))[:200]) for k in sorted(set(a) | set(b)) if a.get(k) != b.get(k)]
+
+    @staticmethod
+    def grew(N, a, b, ma, mb):
+        """growth proportional to the number of requests (lru caches of the standard library that are
+        periodically cleared account for some tens of kilobytes either way)"""
+        return b - a > max(60, N // 10) or mb - ma > max(40960, 48 * N)
 
     def search(self, rng, n, seeds):
         try:
@@ -526,14 +535,19 @@ class C09(Check):
             findings.append(Finding(f'C09:class-state:{name}',
                                     f'serving further requests changed {name}: {before} -> {after}',
                                     dict(kind='class-state', n=2)))
-        for kind in fail_kinds + ['ok-cookie', 'raise-resp', 'good-body']:
+        growth_kinds = fail_kinds + ['ok-cookie', 'raise-resp', 'good-body', 'upload']
+        if n < 2000:      # quick tier: uploads and two other kinds per run; thorough: every kind
+            growth_kinds = ['upload'] + rng.sample([k for k in growth_kinds if k != 'upload'], 2)
+        for kind in growth_kinds:
             evals += 1
-            N = 150 if n < 2000 else 1000
-            a, b = self.reference().measure('growth', kind, N, rng.randrange(1 << 30))
-            if b - a > max(40, N // 10):
+            N = 800 if n < 2000 else 3000
+            a, b, ma, mb = self.reference().measure('growth', kind, N, rng.randrange(1 << 30))
+            self.stats.setdefault('growth', {})[kind] = [b - a, mb - ma]
+            if self.grew(N, a, b, ma, mb):
                 findings.append(Finding(
                     f'C09:growth:{kind}',
-                    f'{N} further requests of kind {kind} grew the number of live objects from {a} to {b}',
+                    f'{N} further requests of kind {kind} grew the number of live objects from {a} to {b} and the '
+                    f'traced memory from {ma} to {mb} bytes',
                     dict(kind='growth', fail_kind=kind, n=N)))
         for kind in fail_kinds:
             for N in sizes:
@@ -559,8 +573,9 @@ class C09(Check):
             return dict(input=i, changed=self._class_state('-', i['n'], random.Random(0)))
         if i.get('kind') == 'growth':
             import random
-            a, b = self._growth(i['fail_kind'], i['n'], random.Random(0))
-            return dict(input=i, objects_after_n=a, objects_after_2n=b, violates=b - a > max(40, i['n'] // 10))
+            a, b, ma, mb = self._growth(i['fail_kind'], i['n'], random.Random(0))
+            return dict(input=i, objects_after_n=a, objects_after_2n=b, bytes_after_n=ma, bytes_after_2n=mb,
+                        violates=self.grew(i['n'], a, b, ma, mb))
         if i.get('kind') == 'retention':
             import random
             envs, inputs = self._retention(i['fail_kind'], i['n'], random.Random(0))
